@@ -272,7 +272,20 @@ func TestC18(t *testing.T) {
 		jobs[i] = vsched.Job{Sc: scenario(p.p), Cfg: vsched.Config{Bound: p.bound, Cache: true, Iterate: true, Deadline: dl}, Weight: len(sets[p.p.Set])*10 + p.p.Depth*5 + p.p.Threads*20}
 	}
 	if rp := os.Getenv("VERIF_REPLAY"); rp != "" && !vsched.IsChild() {
-		t.Skip("replay: the replay file lists the scenario, the schedule (choices) and its trace; re-run ./check C18 quick")
+		scs := make([]vsched.Scenario, len(jobs))
+		for i := range jobs {
+			scs[i] = jobs[i].Sc
+		}
+		v, err := vsched.ReplayFile(rp, scs)
+		if err != nil {
+			t.Fatalf("replay: %v", err)
+		}
+		if v != "" {
+			fmt.Printf("VIOLATION property=%s replay=%s\n  %s\n", "C18", rp, v)
+			t.Fatalf("replayed violation: %s", v)
+		}
+		fmt.Println("replay: no violation on this schedule")
+		return
 	}
 	os.Setenv("VSCHED_GOMAXPROCS", "2") // the in-process DNS server and dnscache use real goroutines
 	R := ev.New("C18")
